@@ -118,6 +118,8 @@ type childResult struct {
 	Samples    []sample         `json:"samples"`
 	StatesCap  bool             `json:"states_cap"`
 	Done       bool             `json:"done"`
+	SlowestMs  int64            `json:"slowest_case_ms"`
+	SlowestIdx int              `json:"slowest_case_index"`
 }
 
 func caseSeed(seed uint64, prop, tier string, index int) uint64 {
@@ -170,9 +172,13 @@ func ChildMain(p *Prop, tier string, seed uint64, k, w, n int, dir string, only 
 		if vw != nil {
 			c.Verbose = vw
 		}
-		caseStart.Store(time.Now().UnixNano())
+		t0 := time.Now()
+		caseStart.Store(t0.UnixNano())
 		c.RunCase(p.Run)
 		caseStart.Store(0)
+		if ms := time.Since(t0).Milliseconds(); ms >= res.SlowestMs {
+			res.SlowestMs, res.SlowestIdx = ms, i
+		}
 		st.Cases++
 		if c.nontriv {
 			st.CaseHash[c.caseHash] = struct{}{}
@@ -327,6 +333,8 @@ func ParentMain(p *Prop, tier, verifDir, outDir string) int {
 	caseHashes := map[uint64]struct{}{}
 	statesCapped := false
 	var samples []sample
+	var slowestMs int64
+	slowestIdx := -1
 	cases := 0
 	bySig := map[string]*Violation{}
 	addViol := func(v *Violation) {
@@ -365,6 +373,9 @@ func ParentMain(p *Prop, tier, verifDir, outDir string) int {
 			}
 			if res.StatesCap {
 				statesCapped = true
+			}
+			if res.SlowestMs >= slowestMs {
+				slowestMs, slowestIdx = res.SlowestMs, res.SlowestIdx
 			}
 			if readHashes(filepath.Join(work, fmt.Sprintf("states_%d.bin", k)), states, 5000000) {
 				statesCapped = true
@@ -501,6 +512,9 @@ func ParentMain(p *Prop, tier, verifDir, outDir string) int {
 	}
 	cov["monitor_observations"] = obs
 	cov["worker_processes"] = w
+	cov["slowest_case_ms"] = slowestMs
+	cov["slowest_case_index"] = slowestIdx
+	cov["case_budget_s"] = budget.Seconds()
 	if len(p.Files) > 0 {
 		if lc := libraryCoverage(filepath.Join(work, "cov"), p.Files); lc != nil {
 			cov["library_blocks"] = lc
